@@ -618,6 +618,19 @@ func (e *Env) step(st *seqState, c *Caller, op model.Op, cor *Corruption, whoFau
 		}
 	}
 
+	// ---- a request beyond a mebibyte may be turned away at the door (a size
+	// limit is not excluded by any statement): 4xx, and nothing happened ----
+	if hr != nil && mop.Kind == model.OpPut && len(mop.Value) > 1<<20 && res.Class == model.OtherError && hr.Status >= 400 && hr.Status < 500 && len(recs) == 0 {
+		if !unchanged {
+			e.fail("state", "%s: refused with status %d but the database file changed", desc, hr.Status)
+		}
+		if got, err := e.Observe(); err != nil || got != e.Model.DumpVisible() {
+			e.fail("state", "%s: refused with status %d but the served state changed (%v)", desc, hr.Status, err)
+		}
+		e.S.Probe("large-request-refused")
+		return
+	}
+
 	// ---- C06: audit expectations ----
 	e.judgeAudit(ctx, mop, res, recs, allowed, desc)
 
